@@ -56,7 +56,9 @@ def main(pid):
             if cl.startswith("C05"):
                 o = obs[ix]
                 vd.violation(cl, {"cases": cases, "text": o["text"], "items": o["items"]},
-                             {"clause": cl, "kinds": "-".join(i["kind"] for i in o["items"]), "config": name})
+                             {"clause": cl, "kinds": "-".join(i["kind"] for i in o["items"]), "config": name},
+                             judge=vlib.J("Trace_Scenario", "Trace_Scenario.cfg", o),
+                             rerun=vlib.R("drv_extract", "run_scenarios", scen[ix], common={"cases": cases}))
         if len(drifts) > len(obs) // 2:
             raise MachineryError(f"{len(drifts)} of {len(obs)} scenario documents were not extracted as written")
         ev.sample({"config": name, "text": obs[len(obs) // 2]["text"], "groups": [i["group"] for i in obs[len(obs) // 2]["items"]]})
